@@ -188,18 +188,20 @@ fn bif_after(parameters: &NamedParameters) -> Value {
 }
 
 fn bif_all(parameters: &NamedParameters) -> Value {
-  if let Some((Value::List(list), _)) = get_param(parameters, &NAME_LIST) {
-    core::all(list.as_vec())
-  } else {
-    parameter_not_found!(&NAME_LIST)
+  match get_param(parameters, &NAME_LIST) {
+    Some((Value::List(list), _)) => core::all(list.as_vec()),
+    // a single value is taken for a list of one item, like in the positional invocation
+    Some((value, _)) => core::all(&[value.clone()]),
+    None => parameter_not_found!(&NAME_LIST),
   }
 }
 
 fn bif_any(parameters: &NamedParameters) -> Value {
-  if let Some((Value::List(list), _)) = get_param(parameters, &NAME_LIST) {
-    core::any(list.as_vec())
-  } else {
-    parameter_not_found!(&NAME_LIST)
+  match get_param(parameters, &NAME_LIST) {
+    Some((Value::List(list), _)) => core::any(list.as_vec()),
+    // a single value is taken for a list of one item, like in the positional invocation
+    Some((value, _)) => core::any(&[value.clone()]),
+    None => parameter_not_found!(&NAME_LIST),
   }
 }
 
